@@ -494,10 +494,15 @@ example : (∃ e s', e.tid = 0 ∧ e.isInternal = true ∧ step 10 Demo.mid e = 
       Demo.mid.cur + it.size > 10 ∧ Demo.mid.items ≠ [] ∧ Demo.mid.closed = false) :=
   (blocked_call_has_cause (p := 0) Demo.run_mid (by decide) (t := 0) rfl).2 rfl
 example : ¬ Demo.mid.abs.canPush 10 Demo.c := by decide
-/-- the sleeping consumer of `Demo.asleep` on the empty open queue: the second alternative of (a) -/
-example : Demo.asleep.closed = false ∧ Demo.asleep.items = [] := by
-  have := (blocked_call_has_cause (p := 0) Demo.run_asleep (by decide) (t := 1) rfl).1 rfl
-  decide
+/-- the sleeping consumer of `Demo.asleep` on the empty open queue: alternative two of (a) -/
+example : (∃ e s', e.tid = 1 ∧ e.isInternal = true ∧ step 10 Demo.asleep e = some s') ∨
+    (TStatus.waitNE = .waitNE ∧ Demo.asleep.closed = false ∧
+      Demo.asleep.items.length ≤ Demo.asleep.cnt isNotifNE + Demo.asleep.cnt isPulling ∧
+      (Demo.asleep.items = [] ∨ ∃ u stu e s', u ≠ 1 ∧ Demo.asleep.thr[u]? = some stu ∧
+        (stu = .notifNE ∨ stu = .pulling) ∧ e.tid = u ∧ e.isInternal = true ∧
+        step 10 Demo.asleep e = some s')) :=
+  (blocked_call_has_cause (p := 0) Demo.run_asleep (by decide) (t := 1) rfl).1 rfl
+example : Demo.asleep.items = [] ∧ ¬ Demo.asleep.abs.canExit := by decide
 
 /-- Consequently: whenever the completed-call queue has an enabled operation for a thread that is
 inside the corresponding call, the model has an enabled event that is not a spurious wake-up (and not
